@@ -1,35 +1,36 @@
 import Librfn.Model.MessageqConc
+import Librfn.Model.MessageqOld
 import Librfn.Gen.Skeleton
 import Librfn.Lemmas.Messageq
 /-!
 # C04 — the message queue is safe for many concurrent senders and one receiver
 
 Model: `Librfn.Model.MessageqConc` — any number of sender threads and one receiver, one step = one atomic
-operation (or one plain payload access), the C arithmetic of `messageq.c` (8-bit counter read through
-`(signed char)`, cyclic 8-bit indices, 32-bit flag word).
+operation (or one plain payload access), the C arithmetic of the current `messageq.c` (since fix 6099fe4: the
+8-bit counter is decremented by a compare-exchange loop that never lets it go below zero; cyclic 8-bit indices;
+32-bit flag word).
 
 `MqInv` (= `mq_inv`) is an inductive invariant: it holds initially (`mq_inv_init`), every step of every thread
 preserves it (`mq_inv_step`) — hence it holds in every reachable state under every interleaving
-(`mq_inv_reachable`), for every number of senders `n ≤ 128` (in particular every `n` with `n + 32 < 128`),
-every depth 1…32, executions of any length, with spurious failures of the weak compare-exchange.
-Interrupt-style executions (handlers nested and run to completion) are particular interleavings.
-The property's clauses are corollaries of the invariant.  Kernel-only (no `bv_decide`).
+(`mq_inv_reachable`), for EVERY number of senders (no bound), every depth 1…32, executions of any length, with
+spurious failures of both weak compare-exchanges.  Interrupt-style executions (handlers nested and run to
+completion) are particular interleavings.  The property's clauses are corollaries of the invariant.
+The two earlier claim protocols (unsigned `fetch_sub` before d97db7e, signed `fetch_sub` before 6099fe4) are modelled in
+`Model/MessageqOld.lean`; `claim_wrap_counterexample` and `claim_wrap_129_counterexample` prove that each of them
+hands out an owned buffer.  Kernel-only (no `bv_decide`).
 -/
 namespace Librfn.C04
 open Librfn.Model.MessageqConc Librfn.Lemmas.Messageq
-open Librfn.Model.Messageq (granted nextSend nextRecv bit slotOfOffset offsetOfSlot)
+open Librfn.Model.Messageq (nextSend nextRecv bit slotOfOffset offsetOfSlot)
 
 /-! ### the invariant -/
 
-/-- a sender between its successful fetch_sub and its successful compare-exchange holds a *permission* -/
+/-- a sender between its successful compare-exchange on `num_free` and its successful compare-exchange on `sendp`
+    holds a *permission*: one unit of the counter that is not yet a ticket -/
 def holdsPerm : SPc → Bool
   | .gotPerm => true | .loaded _ => true | _ => false
-/-- a sender between its failing fetch_sub and the fetch_add that undoes it -/
-def isFailed : SPc → Bool
-  | .failed => true | _ => false
 
 def nPerm (l : List SPc) : Nat := l.countP holdsPerm
-def nFail (l : List SPc) : Nat := l.countP isFailed
 
 /-- sender `i` owns ticket `k` through the pointer to slot `sl` that claim returned: the ticket is unreceived,
     unsent, `sl` is its slot and it is recorded under its owner -/
@@ -39,6 +40,7 @@ def Held (s : St) (i : Nat) (sl : BitVec 8) (k : Nat) : Prop :=
 def SenderOk (s : St) (i : Nat) : SPc → Prop
   | .hasSlot sl k => Held s i sl k
   | .wrote sl k => Held s i sl k ∧ s.payload sl.toNat = s.written k
+  | .loadedFree v => v ≠ 0          -- the compare-exchange is only attempted on a non-zero reading
   | _ => True
 
 def RecvOk (s : St) : RPc → Prop
@@ -49,19 +51,14 @@ def RecvOk (s : St) : RPc → Prop
 
 /-- **mq_inv** -/
 structure MqInv (s : St) : Prop where
-  signed : s.signedRead = true
   qpos : 1 ≤ s.qlen.toNat
   q32 : s.qlen.toNat ≤ 32
   mpos : 1 ≤ s.msgLen.toNat
-  nthreads : s.senders.length ≤ 128
-  /-- the free counter, read as a signed 8-bit number: capacity − permissions in use − failing claims inside
-      their decrement/re-increment window -/
-  counter : s.numFree.toInt =
-    (s.qlen.toNat : Int) - ((s.claimed : Int) - s.released) - nPerm s.senders - nFail s.senders
+  /-- the free counter (an unsigned 8-bit number that never wraps): free + outstanding tickets + permissions held
+      by claims in progress = capacity -/
+  counter : s.numFree.toNat + (s.claimed - s.released) + nPerm s.senders = s.qlen.toNat
   order1 : s.released ≤ s.received
   order2 : s.received ≤ s.claimed
-  /-- outstanding tickets plus permissions never exceed the capacity -/
-  bound : s.claimed - s.released + nPerm s.senders ≤ s.qlen.toNat
   sendp : s.sendp.toNat = s.claimed % s.qlen.toNat
   receivep : s.receivep.toNat = s.received % s.qlen.toNat
   /-- flag `i` is set iff the unreceived ticket with slot `i` has been sent -/
@@ -78,6 +75,10 @@ structure MqInv (s : St) : Prop where
   recvLog : s.recvLog = List.range s.received
 
 abbrev mq_inv := MqInv
+
+/-- outstanding tickets plus permissions never exceed the capacity -/
+theorem MqInv.bound {s : St} (h : MqInv s) : s.claimed - s.released + nPerm s.senders ≤ s.qlen.toNat := by
+  have := h.counter; omega
 
 /-! ### list helpers -/
 
@@ -104,13 +105,11 @@ theorem getElem?_set' (l : List SPc) (i j : Nat) (b : SPc) (hi : i < l.length) :
   · simp [h, List.getElem?_set_ne (Ne.symm h)]
 
 theorem nPerm_le (l : List SPc) : nPerm l ≤ l.length := List.countP_le_length
-theorem nFail_le (l : List SPc) : nFail l ≤ l.length := List.countP_le_length
 
-/-- a sender-local step: the counts after replacing sender `i`'s program counter -/
+/-- a sender-local step: the number of permissions after replacing sender `i`'s program counter -/
 theorem counts_set (l : List SPc) (i : Nat) (a b : SPc) (h : l[i]? = some a) :
-    nPerm (l.set i b) + (if holdsPerm a then 1 else 0) = nPerm l + (if holdsPerm b then 1 else 0) ∧
-    nFail (l.set i b) + (if isFailed a then 1 else 0) = nFail l + (if isFailed b then 1 else 0) :=
-  ⟨countP_set l i a b h, countP_set l i a b h⟩
+    nPerm (l.set i b) + (if holdsPerm a then 1 else 0) = nPerm l + (if holdsPerm b then 1 else 0) :=
+  countP_set l i a b h
 
 /-! ### frame lemmas: the per-thread clauses only depend on a few fields -/
 
@@ -127,7 +126,7 @@ theorem senderOk_congr (s s' : St) (i : Nat) (pc : SPc)
     exact ⟨⟨by rw [h1]; exact a, by rw [h2]; exact b, by rw [h3]; exact c, by rw [h4]; exact d, by rw [h5]; exact e⟩,
       by rw [h6, h7]; exact f⟩
   | idle => trivial
-  | failed => trivial
+  | loadedFree v => exact h
   | gotPerm => trivial
   | loaded v => trivial
 
@@ -181,31 +180,22 @@ theorem countP_replicate_idle (p : SPc → Bool) (n : Nat) (hp : p .idle = false
   | zero => rfl
   | succ n ih => rw [List.replicate_succ, List.countP_cons, ih, hp]; rfl
 
-/-- **mq_inv holds after `messageq_init`** for every depth 1…32, every message size 1…65535 and up to 128 senders -/
+/-- **mq_inv holds after `messageq_init`** for every depth 1…32, every message size 1…65535 and ANY number of senders -/
 theorem mq_inv_init (depth msgLen n : Nat) (hd1 : 1 ≤ depth) (hd32 : depth ≤ 32) (hm1 : 1 ≤ msgLen)
-    (hm16 : msgLen < 65536) (hn : n ≤ 128) : MqInv (init depth msgLen n) := by
+    (hm16 : msgLen < 65536) : MqInv (init depth msgLen n) := by
   have hq : (BitVec.ofNat 8 depth).toNat = depth := by
     rw [BitVec.toNat_ofNat]; exact Nat.mod_eq_of_lt (by omega)
   have hm : (BitVec.ofNat 16 msgLen).toNat = msgLen := by
     rw [BitVec.toNat_ofNat]; exact Nat.mod_eq_of_lt hm16
   exact {
-    signed := rfl
     qpos := by show 1 ≤ (BitVec.ofNat 8 depth).toNat; omega
     q32 := by show (BitVec.ofNat 8 depth).toNat ≤ 32; omega
     mpos := by show 1 ≤ (BitVec.ofNat 16 msgLen).toNat; omega
-    nthreads := by show (List.replicate n SPc.idle).length ≤ 128; rw [List.length_replicate]; exact hn
     counter := by
-      show (BitVec.ofNat 8 depth).toInt = ((BitVec.ofNat 8 depth).toNat : Int) - ((0 : Nat) - (0 : Nat))
-        - nPerm (List.replicate n SPc.idle) - nFail (List.replicate n SPc.idle)
-      rw [toInt_of_small _ (by omega)]
-      simp only [nPerm, nFail, countP_replicate_idle _ _ (show holdsPerm .idle = false from rfl),
-        countP_replicate_idle _ _ (show isFailed .idle = false from rfl)]
-      omega
+      show (BitVec.ofNat 8 depth).toNat + (0 - 0) + nPerm (List.replicate n SPc.idle) = (BitVec.ofNat 8 depth).toNat
+      simp only [nPerm, countP_replicate_idle _ _ (show holdsPerm .idle = false from rfl)]; omega
     order1 := Nat.le_refl _
     order2 := Nat.le_refl _
-    bound := by
-      show 0 - 0 + nPerm (List.replicate n SPc.idle) ≤ (BitVec.ofNat 8 depth).toNat
-      simp only [nPerm, countP_replicate_idle _ _ (show holdsPerm .idle = false from rfl)]; omega
     sendp := by show (0 : BitVec 8).toNat = 0 % _; rw [Nat.zero_mod]; rfl
     receivep := by show (0 : BitVec 8).toNat = 0 % _; rw [Nat.zero_mod]; rfl
     flags := by
@@ -251,7 +241,7 @@ theorem senderOk_received_succ (s s' : St) (i : Nat) (pc : SPc) (hs : s.sent s.r
   | hasSlot sl k => exact key sl k h
   | wrote sl k => exact ⟨key sl k h.1, by rw [h6, h7]; exact h.2⟩
   | idle => trivial
-  | failed => trivial
+  | loadedFree v => exact h
   | gotPerm => trivial
   | loaded v => trivial
 
@@ -324,14 +314,12 @@ theorem inv_release (s : St) (h : MqInv s) (sl : BitVec 8) (k v : Nat) (hr : s.r
     MqInv (stepRecv s false (.read sl k v)) := by
   have hrecv := h.recv; rw [hr] at hrecv
   obtain ⟨a, b, _, _, _⟩ := hrecv
-  have ho2 := h.order2; have hb := h.bound; have hc := h.counter; have hq := h.q32
-  have hle : s.numFree.toInt < 127 := by omega
+  have ho2 := h.order2; have hc := h.counter; have hq := h.q32
   simp only [stepRecv]
-  refine { h with counter := ?_, order1 := ?_, bound := ?_, inflight := ?_, recv := ?_ }
-  · show (s.numFree + 1).toInt = (s.qlen.toNat : Int) - ((s.claimed : Int) - ((s.released + 1 : Nat) : Int)) - _ - _
-    rw [toInt_add_one _ hle, hc]; push_cast; omega
+  refine { h with counter := ?_, order1 := ?_, inflight := ?_, recv := ?_ }
+  · show (s.numFree + 1).toNat + (s.claimed - (s.released + 1)) + nPerm s.senders = s.qlen.toNat
+    rw [toNat_add_one _ (by omega)]; omega
   · show s.released + 1 ≤ s.received; omega
-  · show s.claimed - (s.released + 1) + nPerm s.senders ≤ s.qlen.toNat; omega
   · intro k' h1 h2 h3
     exact h.inflight k' (by have : s.released + 1 ≤ k' := h1; omega) h2 h3
   · show s.released + 1 = s.received; omega
@@ -393,86 +381,82 @@ theorem senderOk_frame (s s' : St) (j : Nat) (pc : SPc)
   | hasSlot sl k => exact key sl k h
   | wrote sl k => exact ⟨key sl k h.1, h6 sl k h.1 h.2⟩
   | idle => trivial
-  | failed => trivial
+  | loadedFree v => exact h
   | gotPerm => trivial
   | loaded v => trivial
 
-/-- claim's fetch_sub: `int num_free = (signed char) atomic_fetch_sub(&mq->num_free, 1)` -/
-theorem inv_fetch_sub (s : St) (h : MqInv s) (i : Nat) (sp : Bool) (v : Nat) (hpc : s.senders[i]? = some .idle) :
+/-- claim's `unsigned char num_free = atomic_load(&mq->num_free); if (0 == num_free) return NULL;` -/
+theorem inv_load_free (s : St) (h : MqInv s) (i : Nat) (sp : Bool) (v : Nat) (hpc : s.senders[i]? = some .idle) :
     MqInv (stepSender s i sp v .idle) := by
   have hlen := lt_of_getElem? hpc
-  have hc := h.counter; have hb := h.bound; have ho1 := h.order1; have ho2 := h.order2
-  have hq := h.q32; have hn := h.nthreads
-  -- at most n-1 other claims are inside their failing window, so the counter is above -128
-  have hfail : nFail s.senders + 1 ≤ s.senders.length := by
-    have e := (counts_set s.senders i .idle .failed hpc).2
-    have l := nFail_le (s.senders.set i .failed)
-    rw [List.length_set] at l
-    simp only [isFailed, Bool.false_eq_true, if_false, if_true] at e
-    omega
-  have hgt : -128 < s.numFree.toInt := by omega
-  have hgr : granted s.signedRead s.numFree = decide (0 < s.numFree.toInt) := by rw [h.signed]; rfl
-  simp only [stepSender, hgr]
-  by_cases hg : 0 < s.numFree.toInt
-  · simp only [hg, decide_true, if_true]
-    obtain ⟨c1, c2⟩ := counts_set s.senders i .idle .gotPerm hpc
-    simp only [holdsPerm, isFailed, Bool.false_eq_true, if_false, if_true] at c1 c2
-    refine { h with nthreads := ?_, counter := ?_, bound := ?_, senders := ?_ }
-    · show (s.senders.set i _).length ≤ 128; rw [List.length_set]; exact hn
-    · show (s.numFree - 1).toInt = (s.qlen.toNat : Int) - ((s.claimed : Int) - s.released)
-        - nPerm (s.senders.set i .gotPerm) - nFail (s.senders.set i .gotPerm)
-      rw [toInt_sub_one _ hgt, hc]; omega
-    · show s.claimed - s.released + nPerm (s.senders.set i .gotPerm) ≤ s.qlen.toNat
+  have hc := h.counter
+  simp only [stepSender]
+  split
+  · have c1 := counts_set s.senders i .idle .idle hpc
+    simp only [holdsPerm, Bool.false_eq_true, if_false] at c1
+    refine { h with counter := ?_, senders := ?_ }
+    · show s.numFree.toNat + (s.claimed - s.released) + nPerm (s.senders.set i .idle) = s.qlen.toNat
       omega
+    · exact senders_set s _ i .idle hlen rfl h.senders
+        (fun j pc _ hj => senderOk_congr s _ j pc rfl rfl rfl rfl rfl rfl rfl hj) trivial
+  · rename_i hnz
+    have c1 := counts_set s.senders i .idle (.loadedFree s.numFree) hpc
+    simp only [holdsPerm, Bool.false_eq_true, if_false] at c1
+    refine { h with counter := ?_, senders := ?_ }
+    · show s.numFree.toNat + (s.claimed - s.released) + nPerm (s.senders.set i (.loadedFree s.numFree)) = s.qlen.toNat
+      omega
+    · exact senders_set s _ i _ hlen rfl h.senders
+        (fun j pc _ hj => senderOk_congr s _ j pc rfl rfl rfl rfl rfl rfl rfl hj) hnz
+
+/-- claim's `atomic_compare_exchange_weak(&mq->num_free, &num_free, num_free - 1)`: success takes one unit of the
+    counter; a failure (spurious, or the counter changed) continues with the value read back, NULL if that is 0 -/
+theorem inv_cas_free (s : St) (h : MqInv s) (i : Nat) (sp : Bool) (v : Nat) (w : BitVec 8)
+    (hpc : s.senders[i]? = some (.loadedFree w)) : MqInv (stepSender s i sp v (.loadedFree w)) := by
+  have hlen := lt_of_getElem? hpc
+  have hc := h.counter
+  have hw : w ≠ 0 := h.senders i _ hpc
+  simp only [stepSender]
+  split
+  · rename_i hok
+    have hwn : w = s.numFree := hok.1
+    have hpos : 1 ≤ w.toNat := by
+      rcases Nat.eq_zero_or_pos w.toNat with e | e
+      · exact absurd (BitVec.eq_of_toNat_eq (by rw [e]; rfl)) hw
+      · exact e
+    have c1 := counts_set s.senders i (.loadedFree w) .gotPerm hpc
+    simp only [holdsPerm, Bool.false_eq_true, if_false, if_true] at c1
+    refine { h with counter := ?_, senders := ?_ }
+    · show (w - 1).toNat + (s.claimed - s.released) + nPerm (s.senders.set i .gotPerm) = s.qlen.toNat
+      rw [toNat_sub_one _ hpos, hwn]; rw [hwn] at hpos; omega
     · exact senders_set s _ i .gotPerm hlen rfl h.senders
         (fun j pc _ hj => senderOk_congr s _ j pc rfl rfl rfl rfl rfl rfl rfl hj) trivial
-  · simp only [hg, decide_false, Bool.false_eq_true, if_false]
-    obtain ⟨c1, c2⟩ := counts_set s.senders i .idle .failed hpc
-    simp only [holdsPerm, isFailed, Bool.false_eq_true, if_false, if_true] at c1 c2
-    refine { h with nthreads := ?_, counter := ?_, bound := ?_, senders := ?_ }
-    · show (s.senders.set i _).length ≤ 128; rw [List.length_set]; exact hn
-    · show (s.numFree - 1).toInt = (s.qlen.toNat : Int) - ((s.claimed : Int) - s.released)
-        - nPerm (s.senders.set i .failed) - nFail (s.senders.set i .failed)
-      rw [toInt_sub_one _ hgt, hc]; omega
-    · show s.claimed - s.released + nPerm (s.senders.set i .failed) ≤ s.qlen.toNat
-      omega
-    · exact senders_set s _ i .failed hlen rfl h.senders
-        (fun j pc _ hj => senderOk_congr s _ j pc rfl rfl rfl rfl rfl rfl rfl hj) trivial
-
-/-- the failing claim's `atomic_fetch_add(&mq->num_free, 1); return NULL;` -/
-theorem inv_fetch_add (s : St) (h : MqInv s) (i : Nat) (sp : Bool) (v : Nat) (hpc : s.senders[i]? = some .failed) :
-    MqInv (stepSender s i sp v .failed) := by
-  have hlen := lt_of_getElem? hpc
-  have hc := h.counter; have hb := h.bound; have ho1 := h.order1; have ho2 := h.order2
-  have hq := h.q32; have hn := h.nthreads
-  have hlt : s.numFree.toInt < 127 := by omega
-  obtain ⟨c1, c2⟩ := counts_set s.senders i .failed .idle hpc
-  simp only [holdsPerm, isFailed, Bool.false_eq_true, if_false, if_true] at c1 c2
-  simp only [stepSender]
-  refine { h with nthreads := ?_, counter := ?_, bound := ?_, senders := ?_ }
-  · show (s.senders.set i _).length ≤ 128; rw [List.length_set]; exact hn
-  · show (s.numFree + 1).toInt = (s.qlen.toNat : Int) - ((s.claimed : Int) - s.released)
-      - nPerm (s.senders.set i .idle) - nFail (s.senders.set i .idle)
-    rw [toInt_add_one _ hlt, hc]; omega
-  · show s.claimed - s.released + nPerm (s.senders.set i .idle) ≤ s.qlen.toNat
-    omega
-  · exact senders_set s _ i .idle hlen rfl h.senders
-      (fun j pc _ hj => senderOk_congr s _ j pc rfl rfl rfl rfl rfl rfl rfl hj) trivial
+  · split
+    · have c1 := counts_set s.senders i (.loadedFree w) .idle hpc
+      simp only [holdsPerm, Bool.false_eq_true, if_false] at c1
+      refine { h with counter := ?_, senders := ?_ }
+      · show s.numFree.toNat + (s.claimed - s.released) + nPerm (s.senders.set i .idle) = s.qlen.toNat
+        omega
+      · exact senders_set s _ i .idle hlen rfl h.senders
+          (fun j pc _ hj => senderOk_congr s _ j pc rfl rfl rfl rfl rfl rfl rfl hj) trivial
+    · rename_i hnz
+      have c1 := counts_set s.senders i (.loadedFree w) (.loadedFree s.numFree) hpc
+      simp only [holdsPerm, Bool.false_eq_true, if_false] at c1
+      refine { h with counter := ?_, senders := ?_ }
+      · show s.numFree.toNat + (s.claimed - s.released) + nPerm (s.senders.set i (.loadedFree s.numFree)) = s.qlen.toNat
+        omega
+      · exact senders_set s _ i _ hlen rfl h.senders
+          (fun j pc _ hj => senderOk_congr s _ j pc rfl rfl rfl rfl rfl rfl rfl hj) hnz
 
 /-- `unsigned char sendp = atomic_load(&mq->sendp);` -/
 theorem inv_load (s : St) (h : MqInv s) (i : Nat) (sp : Bool) (v : Nat) (hpc : s.senders[i]? = some .gotPerm) :
     MqInv (stepSender s i sp v .gotPerm) := by
   have hlen := lt_of_getElem? hpc
-  have hc := h.counter; have hb := h.bound; have hn := h.nthreads
-  obtain ⟨c1, c2⟩ := counts_set s.senders i .gotPerm (.loaded s.sendp) hpc
-  simp only [holdsPerm, isFailed, Bool.false_eq_true, if_false, if_true] at c1 c2
+  have hc := h.counter
+  have c1 := counts_set s.senders i .gotPerm (.loaded s.sendp) hpc
+  simp only [holdsPerm, if_true] at c1
   simp only [stepSender]
-  refine { h with nthreads := ?_, counter := ?_, bound := ?_, senders := ?_ }
-  · show (s.senders.set i _).length ≤ 128; rw [List.length_set]; exact hn
-  · show s.numFree.toInt = (s.qlen.toNat : Int) - ((s.claimed : Int) - s.released)
-      - nPerm (s.senders.set i (.loaded s.sendp)) - nFail (s.senders.set i (.loaded s.sendp))
-    rw [hc]; omega
-  · show s.claimed - s.released + nPerm (s.senders.set i (.loaded s.sendp)) ≤ s.qlen.toNat
+  refine { h with counter := ?_, senders := ?_ }
+  · show s.numFree.toNat + (s.claimed - s.released) + nPerm (s.senders.set i (.loaded s.sendp)) = s.qlen.toNat
     omega
   · exact senders_set s _ i _ hlen rfl h.senders
       (fun j pc _ hj => senderOk_congr s _ j pc rfl rfl rfl rfl rfl rfl rfl hj) trivial
@@ -481,26 +465,22 @@ theorem inv_load (s : St) (h : MqInv s) (i : Nat) (sp : Bool) (v : Nat) (hpc : s
 theorem inv_cas (s : St) (h : MqInv s) (i : Nat) (sp : Bool) (v : Nat) (w : BitVec 8)
     (hpc : s.senders[i]? = some (.loaded w)) : MqInv (stepSender s i sp v (.loaded w)) := by
   have hlen := lt_of_getElem? hpc
-  have hc := h.counter; have hb := h.bound; have ho1 := h.order1; have ho2 := h.order2; have hn := h.nthreads
+  have hc := h.counter; have hb := h.bound; have ho1 := h.order1; have ho2 := h.order2
   simp only [stepSender]
   split
   · rename_i hok
     have hw : w = s.sendp := hok.1
-    obtain ⟨c1, c2⟩ := counts_set s.senders i (.loaded w) (.hasSlot w s.claimed) hpc
-    simp only [holdsPerm, isFailed, Bool.false_eq_true, if_false, if_true] at c1 c2
+    have c1 := counts_set s.senders i (.loaded w) (.hasSlot w s.claimed) hpc
+    simp only [holdsPerm, Bool.false_eq_true, if_false, if_true] at c1
     have hunsent : s.sent s.claimed = false := by
       cases hs : s.sent s.claimed with
       | false => rfl
       | true => have := h.sentlt _ hs; omega
-    refine { h with nthreads := ?_, counter := ?_, order2 := ?_, bound := ?_, sendp := ?_, flags := ?_,
+    refine { h with counter := ?_, order2 := ?_, sendp := ?_, flags := ?_,
                     sentlt := ?_, senders := ?_, inflight := ?_, recv := ?_ }
-    · show (s.senders.set i _).length ≤ 128; rw [List.length_set]; exact hn
-    · show s.numFree.toInt = (s.qlen.toNat : Int) - (((s.claimed + 1 : Nat) : Int) - s.released)
-        - nPerm (s.senders.set i (.hasSlot w s.claimed)) - nFail (s.senders.set i (.hasSlot w s.claimed))
-      rw [hc]; push_cast; omega
-    · show s.received ≤ s.claimed + 1; omega
-    · show s.claimed + 1 - s.released + nPerm (s.senders.set i (.hasSlot w s.claimed)) ≤ s.qlen.toNat
+    · show s.numFree.toNat + (s.claimed + 1 - s.released) + nPerm (s.senders.set i (.hasSlot w s.claimed)) = s.qlen.toNat
       omega
+    · show s.received ≤ s.claimed + 1; omega
     · dsimp only
       exact nextSend_toNat _ _ _ h.qpos (by rw [hw]; exact h.sendp)
     · intro j
@@ -526,14 +506,10 @@ theorem inv_cas (s : St) (h : MqInv s) (i : Nat) (sp : Bool) (v : Nat) (w : BitV
       exact h.inflight k h1 (h.sentlt k h3) h3
     · exact recvOk_mono s _ s.recv rfl rfl (by show s.claimed ≤ s.claimed + 1; omega) rfl (fun _ x => x)
         (fun _ _ => rfl) h.recv
-  · obtain ⟨c1, c2⟩ := counts_set s.senders i (.loaded w) (.loaded s.sendp) hpc
-    simp only [holdsPerm, isFailed, Bool.false_eq_true, if_false, if_true] at c1 c2
-    refine { h with nthreads := ?_, counter := ?_, bound := ?_, senders := ?_ }
-    · show (s.senders.set i _).length ≤ 128; rw [List.length_set]; exact hn
-    · show s.numFree.toInt = (s.qlen.toNat : Int) - ((s.claimed : Int) - s.released)
-        - nPerm (s.senders.set i (.loaded s.sendp)) - nFail (s.senders.set i (.loaded s.sendp))
-      rw [hc]; omega
-    · show s.claimed - s.released + nPerm (s.senders.set i (.loaded s.sendp)) ≤ s.qlen.toNat
+  · have c1 := counts_set s.senders i (.loaded w) (.loaded s.sendp) hpc
+    simp only [holdsPerm, if_true] at c1
+    refine { h with counter := ?_, senders := ?_ }
+    · show s.numFree.toNat + (s.claimed - s.released) + nPerm (s.senders.set i (.loaded s.sendp)) = s.qlen.toNat
       omega
     · exact senders_set s _ i _ hlen rfl h.senders
         (fun j pc _ hj => senderOk_congr s _ j pc rfl rfl rfl rfl rfl rfl rfl hj) trivial
@@ -548,18 +524,14 @@ theorem tickets_differ (s : St) (i j : Nat) (sl sl' : BitVec 8) (k k' : Nat) (hi
 theorem inv_write (s : St) (h : MqInv s) (i : Nat) (sp : Bool) (v : Nat) (sl : BitVec 8) (k : Nat)
     (hpc : s.senders[i]? = some (.hasSlot sl k)) : MqInv (stepSender s i sp v (.hasSlot sl k)) := by
   have hlen := lt_of_getElem? hpc
-  have hc := h.counter; have hb := h.bound; have ho1 := h.order1; have ho2 := h.order2; have hn := h.nthreads
+  have hc := h.counter; have hb := h.bound; have ho1 := h.order1; have ho2 := h.order2
   have hk : Held s i sl k := h.senders i _ hpc
   obtain ⟨k1, k2, k3, k4, k5⟩ := hk
-  obtain ⟨c1, c2⟩ := counts_set s.senders i (.hasSlot sl k) (.wrote sl k) hpc
-  simp only [holdsPerm, isFailed, Bool.false_eq_true, if_false] at c1 c2
+  have c1 := counts_set s.senders i (.hasSlot sl k) (.wrote sl k) hpc
+  simp only [holdsPerm, Bool.false_eq_true, if_false] at c1
   simp only [stepSender]
-  refine { h with nthreads := ?_, counter := ?_, bound := ?_, senders := ?_, inflight := ?_, recv := ?_ }
-  · show (s.senders.set i _).length ≤ 128; rw [List.length_set]; exact hn
-  · show s.numFree.toInt = (s.qlen.toNat : Int) - ((s.claimed : Int) - s.released)
-      - nPerm (s.senders.set i (.wrote sl k)) - nFail (s.senders.set i (.wrote sl k))
-    rw [hc]; omega
-  · show s.claimed - s.released + nPerm (s.senders.set i (.wrote sl k)) ≤ s.qlen.toNat
+  refine { h with counter := ?_, senders := ?_, inflight := ?_, recv := ?_ }
+  · show s.numFree.toNat + (s.claimed - s.released) + nPerm (s.senders.set i (.wrote sl k)) = s.qlen.toNat
     omega
   · refine senders_set s _ i _ hlen rfl h.senders ?_ ?_
     · intro j pc hj hok'
@@ -575,7 +547,7 @@ theorem inv_write (s : St) (h : MqInv s) (i : Nat) (sp : Bool) (v : Nat) (sl : B
         show (if sl'.toNat = sl.toNat then v else s.payload sl'.toNat) = (if k' = k then v else s.written k')
         rw [if_neg hsl, if_neg hne]; exact hp
       | idle => trivial
-      | failed => trivial
+      | loadedFree v => exact hok'
       | gotPerm => trivial
       | loaded v => trivial
     · refine ⟨⟨k1, k2, k3, k4, k5⟩, ?_⟩
@@ -596,23 +568,19 @@ theorem inv_write (s : St) (h : MqInv s) (i : Nat) (sp : Bool) (v : Nat) (sl : B
 theorem inv_send (s : St) (h : MqInv s) (i : Nat) (sp : Bool) (v : Nat) (sl : BitVec 8) (k : Nat)
     (hpc : s.senders[i]? = some (.wrote sl k)) : MqInv (stepSender s i sp v (.wrote sl k)) := by
   have hlen := lt_of_getElem? hpc
-  have hc := h.counter; have hb := h.bound; have ho1 := h.order1; have ho2 := h.order2; have hn := h.nthreads
+  have hc := h.counter; have hb := h.bound; have ho1 := h.order1; have ho2 := h.order2
   have hq32 := h.q32
   have hk : Held s i sl k ∧ s.payload sl.toNat = s.written k := h.senders i _ hpc
   obtain ⟨⟨k1, k2, k3, k4, k5⟩, k6⟩ := hk
   have hslot : slotOfOffset s.msgLen (offsetOfSlot s.msgLen sl) = k % s.qlen.toNat := by
     rw [slot_of_offset _ _ h.mpos]; exact k4
   have hlt : k % s.qlen.toNat < 32 := by have := Nat.mod_lt k h.qpos; omega
-  obtain ⟨c1, c2⟩ := counts_set s.senders i (.wrote sl k) .idle hpc
-  simp only [holdsPerm, isFailed, Bool.false_eq_true, if_false] at c1 c2
+  have c1 := counts_set s.senders i (.wrote sl k) .idle hpc
+  simp only [holdsPerm, Bool.false_eq_true, if_false] at c1
   simp only [stepSender, hslot]
-  refine { h with nthreads := ?_, counter := ?_, bound := ?_, flags := ?_, sentlt := ?_, recvdSent := ?_,
+  refine { h with counter := ?_, flags := ?_, sentlt := ?_, recvdSent := ?_,
                   senders := ?_, inflight := ?_, recv := ?_ }
-  · show (s.senders.set i _).length ≤ 128; rw [List.length_set]; exact hn
-  · show s.numFree.toInt = (s.qlen.toNat : Int) - ((s.claimed : Int) - s.released)
-      - nPerm (s.senders.set i .idle) - nFail (s.senders.set i .idle)
-    rw [hc]; omega
-  · show s.claimed - s.released + nPerm (s.senders.set i .idle) ≤ s.qlen.toNat
+  · show s.numFree.toNat + (s.claimed - s.released) + nPerm (s.senders.set i .idle) = s.qlen.toNat
     omega
   · intro j
     show (s.flags ||| bit (k % s.qlen.toNat)).getLsbD j = true ↔
@@ -663,8 +631,8 @@ theorem inv_sender (s : St) (h : MqInv s) (i : Nat) (sp : Bool) (v : Nat) : MqIn
   split
   · rename_i pc hpc
     cases pc with
-    | idle => exact inv_fetch_sub s h i sp v hpc
-    | failed => exact inv_fetch_add s h i sp v hpc
+    | idle => exact inv_load_free s h i sp v hpc
+    | loadedFree w => exact inv_cas_free s h i sp v w hpc
     | gotPerm => exact inv_load s h i sp v hpc
     | loaded w => exact inv_cas s h i sp v w hpc
     | hasSlot sl k => exact inv_write s h i sp v sl k hpc
@@ -685,11 +653,10 @@ theorem mq_inv_reachable (s : St) (h : MqInv s) (acts : List Act) : MqInv (run s
   | nil => exact h
   | cons a as ih => exact ih _ (mq_inv_step s a h)
 
-/-- from `messageq_init`: every depth 1…32, every number of senders `n` with `n + 32 < 128` (indeed `n ≤ 128`),
-    every schedule -/
+/-- from `messageq_init`: every depth 1…32, EVERY number of senders `n`, every schedule -/
 theorem mq_inv_all (depth msgLen n : Nat) (hd1 : 1 ≤ depth) (hd32 : depth ≤ 32) (hm1 : 1 ≤ msgLen)
-    (hm16 : msgLen < 65536) (hn : n + 32 < 128) (acts : List Act) : MqInv (run (init depth msgLen n) acts) :=
-  mq_inv_reachable _ (mq_inv_init depth msgLen n hd1 hd32 hm1 hm16 (by omega)) acts
+    (hm16 : msgLen < 65536) (acts : List Act) : MqInv (run (init depth msgLen n) acts) :=
+  mq_inv_reachable _ (mq_inv_init depth msgLen n hd1 hd32 hm1 hm16) acts
 
 /-! ### the property's clauses as corollaries of the invariant
 
@@ -714,7 +681,7 @@ theorem sender_holds (s : St) (h : MqInv s) (i : Nat) (sl : BitVec 8) (hh : hold
     | hasSlot sl' k => injection hh with hh; subst hh; exact ⟨k, hok⟩
     | wrote sl' k => injection hh with hh; subst hh; exact ⟨k, hok.1⟩
     | idle => cases hh
-    | failed => cases hh
+    | loadedFree v => cases hh
     | gotPerm => cases hh
     | loaded v => cases hh
 
@@ -778,7 +745,7 @@ theorem claim_hands_out_unowned (s : St) (h : MqInv s) (i : Nat) (w : BitVec 8)
     k % s.qlen.toNat ≠ w.toNat := by
   have hb := h.bound; have ho1 := h.order1; have ho2 := h.order2
   have hperm : 1 ≤ nPerm s.senders := by
-    have e := (counts_set s.senders i (.loaded w) .idle hpc).1
+    have e := counts_set s.senders i (.loaded w) .idle hpc
     simp only [holdsPerm, Bool.false_eq_true, if_false, if_true] at e
     omega
   rw [hw, h.sendp]
@@ -866,81 +833,118 @@ theorem claim_bounded (s : St) (h : MqInv s) :
     s.claimed - s.released ≤ s.qlen.toNat ∧ s.claimed - s.released + nPerm s.senders ≤ s.qlen.toNat :=
   ⟨by have := h.bound; omega, h.bound⟩
 
-/-- **claim fails only if no buffer was free at that instant, counting claims in progress**: at a failing
-    fetch_sub, outstanding buffers + permissions held by claims in progress + other failing claims inside their
-    window already use up the whole capacity -/
-theorem claim_fails_only_if_full (s : St) (h : MqInv s) (i : Nat) (hpc : s.senders[i]? = some .idle)
-    (sp : Bool) (v : Nat) (hfail : (step s (.sender i sp v)).senders[i]? = some .failed) :
-    s.qlen.toNat ≤ (s.claimed - s.released) + nPerm s.senders + nFail s.senders := by
-  have hlen := lt_of_getElem? hpc
-  have hc := h.counter; have ho1 := h.order1; have ho2 := h.order2
-  have hgr : granted s.signedRead s.numFree = decide (0 < s.numFree.toInt) := by rw [h.signed]; rfl
-  simp only [step, hpc, stepSender, hgr] at hfail
-  rw [getElem?_set' _ _ _ _ hlen, if_pos rfl] at hfail
-  by_cases hg : 0 < s.numFree.toInt
-  · simp only [hg, decide_true, if_true] at hfail
-    injection hfail with hfail; exact SPc.noConfusion hfail
-  · omega
+/-- **claim fails only if no buffer was free at that instant, counting claims in progress**: at the step at which a
+    claim returns NULL — its load of the counter, or its failing compare-exchange, read 0 — the buffers handed out and
+    not yet released plus the permissions held by claims in progress use up the whole capacity -/
+theorem claim_fails_only_if_full (s : St) (h : MqInv s) (i : Nat) (sp : Bool) (v : Nat)
+    (hfail : Ev.ret i .claim none ∈ (step s (.sender i sp v)).log) :
+    s.numFree = 0 ∧ (s.claimed - s.released) + nPerm s.senders = s.qlen.toNat := by
+  have hc := h.counter
+  have key : s.numFree = 0 := by
+    simp only [step] at hfail
+    split at hfail
+    · rename_i pc hpc
+      cases pc with
+      | idle =>
+        simp only [stepSender] at hfail
+        split at hfail
+        · assumption
+        · simp at hfail
+      | loadedFree w =>
+        simp only [stepSender] at hfail
+        split at hfail
+        · simp at hfail
+        · split at hfail
+          · assumption
+          · simp at hfail
+      | gotPerm => simp [stepSender] at hfail
+      | loaded w => simp only [stepSender] at hfail; split at hfail <;> simp at hfail
+      | hasSlot sl k => simp [stepSender] at hfail
+      | wrote sl k => simp [stepSender] at hfail
+    · simp at hfail
+  refine ⟨key, ?_⟩
+  have : s.numFree.toNat = 0 := by rw [key]; rfl
+  omega
 
 /-- **when all operations have completed** (no claim in progress) the free counter equals the capacity minus the
     messages still held -/
-theorem quiescent_count (s : St) (h : MqInv s) (hq : nPerm s.senders = 0 ∧ nFail s.senders = 0) :
+theorem quiescent_count (s : St) (h : MqInv s) (hq : nPerm s.senders = 0) :
     s.numFree.toNat = s.qlen.toNat - (s.claimed - s.released) := by
-  have hc := h.counter; have hb := h.bound; have ho1 := h.order1; have ho2 := h.order2; have hq32 := h.q32
-  rw [hq.1, hq.2] at hc
-  rw [BitVec.toInt_eq_toNat_cond] at hc
-  have := s.numFree.isLt
-  split at hc <;> omega
+  have hc := h.counter; omega
 
-/-! ### why fix d97db7e was needed: the arithmetic before it violates exclusive ownership -/
+/-- the counter never exceeds the capacity and never wraps, however many claims are in progress -/
+theorem counter_in_range (s : St) (h : MqInv s) : s.numFree.toNat ≤ s.qlen.toNat := by
+  have hc := h.counter; omega
 
-/-- depth 2, four senders; senders 0 and 1 each claim a buffer and keep it: the queue is full -/
-def d2Setup : List Act :=
-  [.sender 0 false 0, .sender 0 false 0, .sender 0 false 0, .sender 1 false 0, .sender 1 false 0, .sender 1 false 0]
+/-! ### why the two fixes were needed: the earlier claim protocols (`Model/MessageqOld.lean`) violate exclusive ownership -/
 
-/-- the five-step schedule of D2: A = sender 2 does its fetch_sub (0 → 255); B = sender 3 runs a whole claim
-    (fetch_sub, load, compare-exchange); A does its fetch_add -/
-def d2Schedule : List Act :=
-  [.sender 2 false 0, .sender 3 false 0, .sender 3 false 0, .sender 3 false 0, .sender 2 false 0]
-
-/-- **with the unsigned read of the counter (the code before d97db7e) the D2 schedule hands sender 3 the buffer that
-    sender 0 still owns** and leaves the counter at 255 for ever -/
+/-- D2 — **with the unsigned read of the counter (the code before d97db7e)**: depth 2, senders 0 and 1 each claim a
+    buffer and keep it (queue full); A = sender 2 does its fetch_sub (0 → 255); B = sender 3 runs a whole claim
+    (fetch_sub, load, compare-exchange) and is handed slot 0, **which sender 0 still owns**; A does its fetch_add; the
+    counter is left at 255 for ever -/
 theorem claim_wrap_counterexample :
-    holds (run (run (init 2 4 4 false) d2Setup) d2Schedule) (.sender 0) = some 0 ∧
-    holds (run (run (init 2 4 4 false) d2Setup) d2Schedule) (.sender 3) = some 0 ∧
-    (run (run (init 2 4 4 false) d2Setup) d2Schedule).numFree = 255 := by decide
+    Librfn.Model.MessageqOld.holds (Librfn.Model.MessageqOld.run (Librfn.Model.MessageqOld.init false 2 4)
+      [0, 0, 0, 1, 1, 1, 2, 3, 3, 3, 2]) 0 = some 0 ∧
+    Librfn.Model.MessageqOld.holds (Librfn.Model.MessageqOld.run (Librfn.Model.MessageqOld.init false 2 4)
+      [0, 0, 0, 1, 1, 1, 2, 3, 3, 3, 2]) 3 = some 0 ∧
+    (Librfn.Model.MessageqOld.run (Librfn.Model.MessageqOld.init false 2 4) [0, 0, 0, 1, 1, 1, 2, 3, 3, 3, 2]).numFree = 255 := by
+  decide
 
-/-- the same schedule on the current code: sender 3's fetch_sub reads -1 and fails too (its third step merely starts
-    another, equally failing, claim); once it has undone that, nobody shares a buffer and the counter is back at 0 -/
+/-- the schedule of D12: depth 1, sender 0 claims the only buffer and keeps it; senders 1 … `m` each do the fetch_sub of a
+    claim that is going to fail (they are nested inside each other's decrement/re-increment window); then sender `m+1`
+    runs a whole claim -/
+def d12Schedule (m : Nat) : List Nat := [0, 0, 0] ++ (List.range m).map (· + 1) ++ [m + 1, m + 1, m + 1]
+
+/-- D12 — **with the signed read of the counter (the code from d97db7e to 6099fe4)**: 129 failing claims nested inside each
+    other take the 8-bit counter from 0 down to −128 and once more, to +127; the 130th claim then reads a positive value
+    and is handed slot 0, **which sender 0 still owns** -/
+theorem claim_wrap_129_counterexample :
+    Librfn.Model.MessageqOld.holds (Librfn.Model.MessageqOld.run (Librfn.Model.MessageqOld.init true 1 131) (d12Schedule 129)) 0 = some 0 ∧
+    Librfn.Model.MessageqOld.holds (Librfn.Model.MessageqOld.run (Librfn.Model.MessageqOld.init true 1 131) (d12Schedule 129)) 130 = some 0 := by
+  decide +kernel
+
+/-- one nested failing claim fewer and the old protocol was still safe: with 128 of them the counter is −128 and the next
+    claim (fetch_sub, fetch_add) fails and returns NULL — which is why the defect needed more than 128 concurrent claim contexts to show -/
+theorem claim_no_wrap_128 :
+    (Librfn.Model.MessageqOld.run (Librfn.Model.MessageqOld.init true 1 131) (d12Schedule 128).dropLast).senders[129]? = some .idle ∧
+    (Librfn.Model.MessageqOld.run (Librfn.Model.MessageqOld.init true 1 131) (d12Schedule 128).dropLast).numFree = 128 := by
+  decide +kernel
+
+/-- the D2 shape on the current code: the queue is full, so the loads of senders 2 and 3 read 0 and both claims return
+    NULL without ever touching the counter -/
 theorem d2_schedule_fixed :
-    holds (run (run (init 2 4 4 true) d2Setup) (d2Schedule ++ [.sender 3 false 0])) (.sender 0) = some 0 ∧
-    holds (run (run (init 2 4 4 true) d2Setup) (d2Schedule ++ [.sender 3 false 0])) (.sender 3) = none ∧
-    (run (run (init 2 4 4 true) d2Setup) (d2Schedule ++ [.sender 3 false 0])).numFree = 0 := by decide
+    holds (run (init 2 4 4) ((List.replicate 4 (.sender 0 false 0)) ++ (List.replicate 4 (.sender 1 false 0)) ++
+      [.sender 2 false 0, .sender 3 false 0])) (.sender 0) = some 0 ∧
+    holds (run (init 2 4 4) ((List.replicate 4 (.sender 0 false 0)) ++ (List.replicate 4 (.sender 1 false 0)) ++
+      [.sender 2 false 0, .sender 3 false 0])) (.sender 3) = none ∧
+    (run (init 2 4 4) ((List.replicate 4 (.sender 0 false 0)) ++ (List.replicate 4 (.sender 1 false 0)) ++
+      [.sender 2 false 0, .sender 3 false 0])).numFree = 0 := by decide
 
 /-! ### non-vacuity -/
 
-/-- a reachable state with two claims in flight on a full queue, a held buffer and a message in flight satisfies
+/-- a reachable state with a claim attempted on a full queue, a held buffer and a message with the receiver satisfies
     the invariant (by `mq_inv_all`), and the parties named by the corollaries really hold buffers there -/
-example : MqInv (run (init 2 4 3) [.sender 0 false 7, .sender 0 false 7, .sender 0 false 7, .sender 0 false 7,
-    .sender 0 false 7, .sender 1 false 8, .sender 1 false 8, .sender 1 false 8, .recv true, .recv true,
-    .sender 2 false 9, .sender 1 false 8]) :=
-  mq_inv_all 2 4 3 (by omega) (by omega) (by omega) (by omega) (by omega) _
+example : MqInv (run (init 2 4 3) (List.replicate 6 (.sender 0 false 7) ++ List.replicate 4 (.sender 1 false 8) ++
+    [.recv true, .recv true, .sender 2 false 9, .sender 1 false 8])) :=
+  mq_inv_all 2 4 3 (by omega) (by omega) (by omega) (by omega) _
 
-example : holds (run (init 2 4 3) [.sender 0 false 7, .sender 0 false 7, .sender 0 false 7, .sender 0 false 7,
-    .sender 0 false 7, .sender 1 false 8, .sender 1 false 8, .sender 1 false 8, .recv true, .recv true,
-    .sender 2 false 9, .sender 1 false 8]) .receiver = some 0 := by decide
+example : holds (run (init 2 4 3) (List.replicate 6 (.sender 0 false 7) ++ List.replicate 4 (.sender 1 false 8) ++
+    [.recv true, .recv true, .sender 2 false 9, .sender 1 false 8])) .receiver = some 0 := by decide
 
-example : holds (run (init 2 4 3) [.sender 0 false 7, .sender 0 false 7, .sender 0 false 7, .sender 0 false 7,
-    .sender 0 false 7, .sender 1 false 8, .sender 1 false 8, .sender 1 false 8, .recv true, .recv true,
-    .sender 2 false 9, .sender 1 false 8]) (.sender 1) = some 1 := by decide
+example : holds (run (init 2 4 3) (List.replicate 6 (.sender 0 false 7) ++ List.replicate 4 (.sender 1 false 8) ++
+    [.recv true, .recv true, .sender 2 false 9, .sender 1 false 8])) (.sender 1) = some 1 := by decide
 
 /-- the receiver reads 7, the value sender 0 wrote -/
-example : (run (init 2 4 3) [.sender 0 false 7, .sender 0 false 7, .sender 0 false 7, .sender 0 false 7,
-    .sender 0 false 7, .recv false, .recv false]).recv = .read 0 0 7 := by decide
+example : (run (init 2 4 3) (List.replicate 6 (.sender 0 false 7) ++ [.recv false, .recv false])).recv = .read 0 0 7 := by
+  decide
 
-/-- a failing fetch_sub exists: depth 1, sender 0 holds the only buffer, sender 1 tries to claim -/
-example : (step (run (init 1 4 2) [.sender 0 false 0, .sender 0 false 0, .sender 0 false 0]) (.sender 1 false 0)).senders[1]?
-    = some .failed := by decide
+/-- a failing claim exists: depth 1, sender 0 holds the only buffer, sender 1's load reads 0 -/
+example : Ev.ret 1 .claim none ∈
+    (step (run (init 1 4 2) (List.replicate 4 (.sender 0 false 0))) (.sender 1 false 0)).log := by decide
+
+/-- … and so does a compare-exchange on the counter that fails because another sender took the last unit in between -/
+example : (run (init 1 4 2) [.sender 0 false 0, .sender 1 false 0, .sender 0 false 0, .sender 1 false 0]).log
+    = [.atomic 1 .cas_fail .num_free 1 0, .ret 1 .claim none] := by decide
 
 /-! ### Tie S: the model's atomic-operation skeleton is the one extracted from the current source
 
